@@ -16,6 +16,11 @@
 //	yieldcalls <pkgdir> <Iface> <writeMethod,...>   a scheduling point before every method call on a value whose
 //	                                static type is interface <Iface> declared in <pkgdir> (in every instrumented
 //	                                package): listed methods are writes of the called object, the others reads
+//	replacecall <pkgdir> <Func> <NewFunc>   calls of the package-level function <Func> inside <pkgdir> call <NewFunc>
+//	                                (defined by an added file) instead: lets a harness substitute a constructor
+//	setconst <pkgdir> <Name> <int>  give the package-level integer constant <Name> another value in the
+//	                                instrumented copy (scaling a size constant down so that the behaviour at
+//	                                and beyond it is inside a small bound; the evidence says so)
 //	add <pkgdir> <harness-relative file>   add a file (tag verif) to a repo package
 //	shims                           map harness/zzverif/* into the repo module (implied by instrument)
 //
@@ -54,6 +59,8 @@ type spec struct {
 	watch      map[string]map[string]bool // pkgdir -> "Type.field"
 	watchAll   map[string]bool
 	yieldIface map[string]map[string]bool // "<import path>.<Iface>" -> write methods
+	replace    map[string]map[string]string // pkgdir -> func -> new func
+	setconst   map[string]map[string]string // pkgdir -> const -> value
 	add        [][2]string
 }
 
@@ -67,7 +74,7 @@ func readSpec(path string) *spec {
 	if err != nil {
 		die("%v", err)
 	}
-	s := &spec{instrument: map[string]bool{}, timePkgs: map[string]bool{}, lruPkgs: map[string]bool{}, watch: map[string]map[string]bool{}, watchAll: map[string]bool{}, yieldIface: map[string]map[string]bool{}}
+	s := &spec{instrument: map[string]bool{}, timePkgs: map[string]bool{}, lruPkgs: map[string]bool{}, watch: map[string]map[string]bool{}, watchAll: map[string]bool{}, yieldIface: map[string]map[string]bool{}, replace: map[string]map[string]string{}, setconst: map[string]map[string]string{}}
 	for _, ln := range strings.Split(string(b), "\n") {
 		if i := strings.IndexByte(ln, '#'); i >= 0 {
 			ln = ln[:i]
@@ -101,6 +108,24 @@ func readSpec(path string) *spec {
 			for _, w := range f[2:] {
 				s.watch[f[1]][w] = true
 			}
+			s.instrument[f[1]] = true
+		case "setconst":
+			if len(f) != 4 {
+				die("bad setconst line %q", ln)
+			}
+			if s.setconst[f[1]] == nil {
+				s.setconst[f[1]] = map[string]string{}
+			}
+			s.setconst[f[1]][f[2]] = f[3]
+			s.instrument[f[1]] = true
+		case "replacecall":
+			if len(f) != 4 {
+				die("bad replacecall line %q", ln)
+			}
+			if s.replace[f[1]] == nil {
+				s.replace[f[1]] = map[string]string{}
+			}
+			s.replace[f[1]][f[2]] = f[3]
 			s.instrument[f[1]] = true
 		case "yieldcalls":
 			if len(f) != 4 {
@@ -236,6 +261,16 @@ func main() {
 				}
 				overlay[filepath.Join(lp.Dir, lp.GoFiles[i])] = dst
 			}
+			for c := range sp.setconst[p] {
+				if !rw.replaced["const "+c] {
+					die("setconst %s %s: no such constant with an initialiser found", p, c)
+				}
+			}
+			for fn := range sp.replace[p] {
+				if !rw.replaced[fn] {
+					die("replacecall %s %s: no call of such a function found (renamed? the spec must follow the code)", p, fn)
+				}
+			}
 			for w := range rw.watch {
 				if !rw.watchHit[w] {
 					die("watch %s %s: no access to such a field found (renamed? the watch-list must follow the code)", p, w)
@@ -259,6 +294,7 @@ type rewriter struct {
 	watch     map[string]bool
 	watchHit  map[string]bool
 	watchAll  bool
+	replaced  map[string]bool
 	captured  map[types.Object]bool // local variables referenced from a function literal that does not declare them
 	autoN     int
 	files     []*ast.File
@@ -270,6 +306,7 @@ type rewriter struct {
 
 func (rw *rewriter) load(lp *listPkg, imp types.Importer) {
 	rw.watchHit = map[string]bool{}
+	rw.replaced = map[string]bool{}
 	for _, gf := range lp.GoFiles {
 		f, err := parser.ParseFile(rw.fset, filepath.Join(lp.Dir, gf), nil, parser.ParseComments)
 		if err != nil {
@@ -341,6 +378,24 @@ func (rw *rewriter) rewriteFile(f *ast.File) bool {
 	if rw.watchAll {
 		rw.findCaptured(f)
 	}
+	if sc := rw.sp.setconst[rw.pkgdir]; sc != nil {
+		for _, d := range f.Decls {
+			gd, ok := d.(*ast.GenDecl)
+			if !ok || gd.Tok != token.CONST {
+				continue
+			}
+			for _, sp := range gd.Specs {
+				vs := sp.(*ast.ValueSpec)
+				for i, nm := range vs.Names {
+					if v, ok := sc[nm.Name]; ok && i < len(vs.Values) {
+						vs.Values[i] = &ast.BasicLit{Kind: token.INT, Value: v}
+						rw.replaced["const "+nm.Name] = true
+						changed = true
+					}
+				}
+			}
+		}
+	}
 	pre := func(c *astutil.Cursor) bool { return true }
 	post := func(c *astutil.Cursor) bool {
 		switch n := c.Node().(type) {
@@ -367,6 +422,15 @@ func (rw *rewriter) rewriteFile(f *ast.File) bool {
 		case *ast.CallExpr:
 			if len(rw.sp.yieldIface) > 0 && rw.yieldCall(n) {
 				changed = true
+			}
+			if rep := rw.sp.replace[rw.pkgdir]; rep != nil {
+				if id, ok := n.Fun.(*ast.Ident); ok && rep[id.Name] != "" {
+					if fn, ok := rw.info.Uses[id].(*types.Func); ok && fn.Pkg() != nil && fn.Parent() == fn.Pkg().Scope() {
+						n.Fun = ast.NewIdent(rep[id.Name])
+						rw.replaced[id.Name] = true
+						changed = true
+					}
+				}
 			}
 			if id, ok := n.Fun.(*ast.Ident); ok && id.Name == "close" && len(n.Args) == 1 {
 				if _, isBuiltin := rw.info.Uses[id].(*types.Builtin); isBuiltin || rw.info.Uses[id] == nil {
